@@ -257,9 +257,35 @@ func (m *lm) c07Resubmit(moved map[ref.Hash]struct{}, k int) {
 }
 
 // c07FollowUps: operations offered identically to A and B.
+// c07DroppedValid: "later transfers are validated against the same funds as before": a spend that the truncated node
+// itself sealed after the cut, that is covered in its own full history (ancestors through live AND checkpointed
+// vertices) and that the node then drops as invalid, was judged against different funds.
+func (m *lm) c07DroppedValid(before, after *sim.Snap, what string) {
+	const A = 0
+	if m.checkpointOverdrawn() {
+		return
+	}
+	for h, v := range before.Live {
+		if _, still := after.Live[h]; still {
+			continue
+		}
+		if _, st := after.Stored[h]; st {
+			continue
+		}
+		if v.SignerPublicAddress != m.w.Nodes[A].Key.Addr || !ref.IsSpice(v) || !m.postCut[h] || m.buildsOnStaleTip(v) {
+			continue
+		}
+		H := ref.Union(m.w.Arch.Anc(h), nil)
+		if ok, in, need := m.covered(v, H); ok && ref.VertexValid(v) {
+			m.addViol("C07", "covered-spend-dropped-after-truncation", "after truncation the node dropped its own tentative vertex %s during %s although the issuer received %s and needs %s over the vertex's full history (live + checkpointed ancestors): transfers are no longer validated against the same funds", m.describe(v), what, in, need)
+		}
+	}
+}
+
 func (m *lm) c07FollowUps(n int) {
 	const A, B = 0, 1
 	for i := 0; i < n && m.stuck == nil; i++ {
+		preA := m.snaps[A]
 		switch rapid.IntRange(0, 3).Draw(m.rt, "followKind") {
 		case 0, 1: // proposal at A, delivered to B
 			from := m.pickSpender("fFrom")
@@ -269,6 +295,10 @@ func (m *lm) c07FollowUps(n int) {
 			m.noteResult("C07", r, "CreateLeaf")
 			desc := fmt.Sprintf("follow-up propose(A, %s->%s %d.%018d)=%s", m.w.Wallets[from].Name, m.w.Wallets[to].Name, amt.Currency, amt.SupplementaryCurrency, errClass(r.Err))
 			if r.Vertex != nil {
+				if m.postCut == nil {
+					m.postCut = map[ref.Hash]bool{}
+				}
+				m.postCut[r.Vertex.Hash] = true
 				m.pendingCreated = append(m.pendingCreated, lmCreated{A, r.Vertex, m.snaps[A]})
 				d := m.w.Apply(sim.Op{K: "deliver", N: B, V: m.w.OrderIndex(r.Vertex.Hash)})
 				m.label("c07:follow-up-twin-compared")
@@ -325,6 +355,7 @@ func (m *lm) c07FollowUps(n int) {
 			}
 			m.observe(fmt.Sprintf("follow-up craft on tips -> A=%s B=%s", errClass(da.Err), errClass(db.Err)))
 		}
+		m.c07DroppedValid(preA, m.snaps[A], "a follow-up")
 		// once the live tips differ (one side dropped a tentative tip the other still holds) outcomes may legally differ
 		if !sameKeys(m.snaps[A].Tips(), m.snaps[B].Tips()) {
 			m.twinsDiverged = true
